@@ -96,6 +96,10 @@ type Conn struct {
 	SyncWrites bool
 	syncWait   bool
 	srvG       string // goroutine that reads the server side
+	wdlFired   bool   // a pending write deadline has passed (virtual time: a client pause)
+	// SlowWrite: every server Write takes this long before the bytes are taken (a client that reads
+	// slowly): what is handed to Write must stay untouched until Write returns
+	SlowWrite time.Duration
 
 	CloseErr error // returned by the server-side Close (the connection is closed all the same)
 	rdl, wdl time.Time
@@ -225,6 +229,9 @@ again:
 		// With a read deadline pending that deadline fires (virtual time, no waiting); without one a
 		// pause cannot be observed.
 		c.in = c.in[1:]
+		if !c.wdl.IsZero() {
+			c.wdlFired = true // a write deadline left pending has passed as well by the end of the pause
+		}
 		if !c.rdl.IsZero() {
 			c.log(Event{Kind: "T", N: c.consumed})
 			return 0, os.ErrDeadlineExceeded
@@ -251,6 +258,9 @@ func (c *Conn) Write(p []byte) (int, error) {
 	if c.Yield != nil {
 		c.Yield()
 	}
+	if c.SlowWrite > 0 {
+		time.Sleep(c.SlowWrite)
+	}
 	c.mu.Lock()
 	defer c.mu.Unlock()
 	c.writes++
@@ -260,7 +270,7 @@ func (c *Conn) Write(p []byte) (int, error) {
 	if c.closed {
 		return 0, net.ErrClosed
 	}
-	if expired(c.wdl) {
+	if expired(c.wdl) || c.wdlFired {
 		return 0, os.ErrDeadlineExceeded
 	}
 	for c.SyncWrites && len(c.in) > 0 && !c.closed && !c.failed {
@@ -336,6 +346,7 @@ func (c *Conn) SetReadDeadline(t time.Time) error {
 func (c *Conn) SetWriteDeadline(t time.Time) error {
 	c.mu.Lock()
 	c.wdl = t
+	c.wdlFired = false
 	c.mu.Unlock()
 	return nil
 }
